@@ -188,7 +188,7 @@ def run(ctx, replay=None):
         else:
             l1(ctx, "OciCrash", l1cfg(3, 5), name="L1-OciCrash-N3-ops5")
             l1(ctx, "OciCrash", l1cfg(4, 4), name="L1-OciCrash-N4-ops4", timeout=3000)
-        count = 40 if ctx.quick else 800
+        count = 40 if ctx.quick else 2000
         p = run_cmd([drv, "gen", str(count), str(ctx.seed), scf])
         if p.returncode != 0:
             raise Infra("scenario generation failed: " + p.stderr)
